@@ -182,7 +182,7 @@ func rulesC11(c *Ctx) {
 					as, _ := w.(*ast.AssignStmt)
 					okKey := false
 					if as != nil {
-						if _, k, ok := indexOf(as.Lhs[0]); ok && exprStr(k) == "transport.SessionID" {
+						if _, k, ok := indexOf(as.Lhs[0]); ok && sp.FieldPath(k) == "StreamableServerTransport.SessionID" {
 							okKey = true
 						}
 					}
@@ -193,7 +193,7 @@ func rulesC11(c *Ctx) {
 						if kv, ok := x.(*ast.KeyValueExpr); ok && exprStr(kv.Key) == "userID" {
 							uv := sp.ObjOf(kv.Value)
 							for _, w2 := range Writes(sp.Body, false) {
-								if sp.ObjOf(w2.LHS) == uv && w2.RHS != nil && exprStr(w2.RHS) == "tokenInfo.UserID" && g.ReachableFrom(g.VertexOf(w2.Stmt))[wv] {
+								if sp.ObjOf(w2.LHS) == uv && w2.RHS != nil && sp.FieldPath(w2.RHS) == "TokenInfo.UserID" && g.ReachableFrom(g.VertexOf(w2.Stmt))[wv] {
 									okOwner = true
 								}
 							}
@@ -251,7 +251,7 @@ func rulesC11(c *Ctx) {
 					c.Check(!after, key, f, call, "a new id is minted only on the path that did not look up an existing session")
 				case "(*StreamableHTTPHandler).serveStateless":
 					guards := g.GuardsAt(v)
-					c.Check(hasAtom(guards, func(a Atom) bool { return a.Val && exprStr(a.E) == "legacySessions" }), key, f, call, "stateless: ids exist only under the allowsessionsinstateless compatibility switch (guards: %s)", atomsString(guards))
+					c.Check(hasAtom(guards, func(a Atom) bool { return a.Val && f.ObjOf(a.E) == compatFlagVar(f) && compatFlagVar(f) != nil }), key, f, call, "stateless: ids exist only under the allowsessionsinstateless compatibility switch (guards: %s)", atomsString(guards))
 				default:
 					c.Fail(key, f, call, "unexpected caller of GetSessionID")
 				}
@@ -266,16 +266,21 @@ func rulesC11(c *Ctx) {
 				if fn == nil || fn.Name() != "Set" || len(call.Args) != 2 || f.ObjOf(call.Args[0]) != sidHeader {
 					continue
 				}
-				// only response headers (w.Header().Set) matter on the server side
-				recv := exprStr(ast.Unparen(call.Fun).(*ast.SelectorExpr).X)
-				if recv != "w.Header()" {
+				// only response headers (<ResponseWriter param>.Header().Set) matter on the server side
+				hc, isHC := ast.Unparen(ast.Unparen(call.Fun).(*ast.SelectorExpr).X).(*ast.CallExpr)
+				if !isHC {
+					continue
+				}
+				hs, isHS := ast.Unparen(hc.Fun).(*ast.SelectorExpr)
+				wp := f.Root().ParamWhere(isHTTPResponseWriter)
+				if !isHS || hs.Sel.Name != "Header" || wp == nil || f.ObjOf(hs.X) != types.Object(wp) {
 					continue
 				}
 				m++
 				g := f.Graph()
 				guards := g.GuardsAt(g.VertexOf(call))
 				sid := c.Field(pM, "streamableServerConn", "sessionID")
-				ok := f.Name() == "(*streamableServerConn).servePOST" && hasAtom(guards, func(a Atom) bool { return a.Val && exprStr(a.E) == "isInitialize" }) && hasAtom(guards, func(a Atom) bool {
+				ok := f.Name() == "(*streamableServerConn).servePOST" && hasAtom(guards, func(a Atom) bool { return a.Val && f.ObjOf(a.E) != nil && f.ObjOf(a.E) == flagSetUnderMethod(f, c.Obj(pM, "methodInitialize")) }) && hasAtom(guards, func(a Atom) bool {
 					x, y, op, isCmp := binaryCmp(a.E)
 					s, isC := f.ConstString(y)
 					return isCmp && op == token.NEQ && a.Val && f.IsField(x, sid) && isC && s == ""
@@ -390,7 +395,7 @@ func rulesC11(c *Ctx) {
 			okp := true
 			for _, x := range dg.Exits {
 				// every exit on the ok path passes Close
-				if hasAtom(dg.GuardsAt(x), func(a Atom) bool { return a.Val && exprStr(a.E) == "ok" }) {
+				if hasAtom(dg.GuardsAt(x), func(a Atom) bool { return a.Val && del.ObjOf(a.E) != nil && del.ObjOf(a.E) == del.VarFromCall(lookup, 1) }) {
 					if ok2, _ := dg.DominatedBy(x, func(v int) bool { return v == cvs[0] }); !ok2 {
 						okp = false
 					}
@@ -457,7 +462,7 @@ func rulesC11(c *Ctx) {
 			}
 			n++
 			guards := g.GuardsAt(g.VertexOf(id))
-			c.Check(hasAtom(guards, func(a Atom) bool { return a.Val && exprStr(a.E) == "legacySessions" }), "serveStateless:header-read#"+itoa(n), f, id, "the session-id header is read only under the compatibility switch (guards: %s)", atomsString(guards))
+			c.Check(hasAtom(guards, func(a Atom) bool { return a.Val && f.ObjOf(a.E) == compatFlagVar(f) && compatFlagVar(f) != nil }), "serveStateless:header-read#"+itoa(n), f, id, "the session-id header is read only under the compatibility switch (guards: %s)", atomsString(guards))
 		})
 		// the transport's SessionID is the local that stays "" on the default path
 		var sidVar types.Object
@@ -472,7 +477,7 @@ func rulesC11(c *Ctx) {
 				if _, isDecl := w.(*ast.ValueSpec); isDecl {
 					continue
 				}
-				if !hasAtom(g.GuardsAt(g.VertexOf(w)), func(a Atom) bool { return a.Val && exprStr(a.E) == "legacySessions" }) {
+				if !hasAtom(g.GuardsAt(g.VertexOf(w)), func(a Atom) bool { return a.Val && f.ObjOf(a.E) == compatFlagVar(f) && compatFlagVar(f) != nil }) {
 					okSid = false
 				}
 			}
@@ -482,7 +487,7 @@ func rulesC11(c *Ctx) {
 		ok405 := false
 		for _, cv := range g.condVertices() {
 			cond := g.Node(cv - 1).(ast.Expr)
-			if x, y, op, isCmp := binaryCmp(cond); isCmp && op == token.NEQ && exprStr(x) == "req.Method" {
+			if x, y, op, isCmp := binaryCmp(cond); isCmp && op == token.NEQ && f.FieldPath(x) == "Request.Method" {
 				if s, isC := f.ConstString(y); isC && s == "POST" {
 					t, _ := g.BranchTargets(cv - 1)
 					blkStatus := int64(0)
@@ -513,4 +518,44 @@ func rulesC11(c *Ctx) {
 		}
 		c.Check(ok405, "serveStateless:405-for-non-POST", f, nil, "any method other than POST is answered 405 with an Allow header and never reaches the transport")
 	})
+}
+
+// compatFlagVar returns the local of f that is assigned from a comparison of an MCPGODEBUG package
+// variable with "1" (e.g. legacySessions := allowsessionsinstateless == "1").
+func compatFlagVar(f *Func) types.Object {
+	var out types.Object
+	for _, w := range Writes(f.Body, false) {
+		if w.RHS == nil {
+			continue
+		}
+		x, y, op, ok := binaryCmp(w.RHS)
+		if !ok || op != token.EQL {
+			continue
+		}
+		v, isV := f.ObjOf(x).(*types.Var)
+		s, isC := f.ConstString(y)
+		if isV && v.Pkg() != nil && v.Parent() == v.Pkg().Scope() && isC && s == "1" {
+			out = f.ObjOf(w.LHS)
+		}
+	}
+	return out
+}
+
+// flagSetUnderMethod returns the boolean local that f sets to true under the guard
+// `<request>.Method == method`.
+func flagSetUnderMethod(f *Func, method types.Object) types.Object {
+	g := f.Graph()
+	var out types.Object
+	for _, w := range Writes(f.Body, false) {
+		if w.RHS == nil || exprStr(w.RHS) != "true" {
+			continue
+		}
+		if hasAtom(g.GuardsAt(g.VertexOf(w.Stmt)), func(a Atom) bool {
+			_, y, op, ok := binaryCmp(a.E)
+			return ok && op == token.EQL && a.Val && f.ObjOf(y) == method
+		}) {
+			out = f.ObjOf(w.LHS)
+		}
+	}
+	return out
 }
